@@ -25,11 +25,10 @@ import (
 // answers exactly as before.
 //
 // One knowing divergence: hop entries served through the composer do not
-// tick their own hit/prefetch machinery (the Msg path's chase reaches them
-// through the internal sub-pipeline, which does). A hop that expires ages
-// out of the walk, the next hit declines to the Msg path, and the ordinary
-// chase re-resolves and re-admits it — self-healing at the cost of one
-// decoded serve.
+// tick their own hit counters (the Msg path's chase reaches them through
+// the internal sub-pipeline, which does). Their refresh is not part of it:
+// a hop that has become refresh-due declines the walk, so the Msg path's
+// chase claims the refresh exactly as it would have without the composer.
 
 const (
 	// maxWireChaseHops mirrors the Msg-path chase depth.
@@ -228,6 +227,14 @@ func (c *Cache) collectWireChase(
 		next := c.checkCache(key)
 		if next == nil || next.wireServe&wireEligible == 0 ||
 			!entryMatchesWireQuestion(next, target, qtype, qclass, cd) {
+			return 0, false
+		}
+		// A refresh-due hop declines like a refresh-due exact hit does in
+		// serveHitFromWire: the Msg path's chase reaches the hop through
+		// the internal sub-pipeline, whose hit claims the refresh. Once the
+		// claim is set ShouldPrefetch reports false and the composer serves
+		// again, so a hot alias keeps its hops refreshed on either path.
+		if c.prefetchQueue != nil && next.PrefetchEligible() && next.ShouldPrefetch(c.config.Prefetch) {
 			return 0, false
 		}
 		entry = next
